@@ -95,7 +95,7 @@ CHECKS = {
          "DESIGN.md §2 C19"),
  "C15": ("exploration",
          "bounded-exhaustive enumeration of short inputs and of every single deviation (truncation, every byte value, CBOR/JSON/text splices incl. huge declared lengths and deep nesting) of valid seed encodings for 26 public decoders, executed in isolated worker processes with a counting allocator, stack limit and watchdog; explicit-state BFS over CTAPHID packet sequences on the real handler",
-         "The property is unbounded; the check decides its bounded version and says so: all byte strings to length 2 (3), all strings over 8-symbol alphabets to length 5 (7), every one-deviation neighbour (two on short seeds in thorough) of valid encodings of every message type, and all packet sequences to depth 2-4 (3-6) over a 300-packet alphabet with state deduplication through the hook snapshot. A panic, a worker death (abort, stack overflow, refused allocation above 1 GiB), a single allocation above 16 MiB or a case exceeding the time limit is a verdict for that input, keyed by decoder + panic site + class.",
+         "The property is unbounded; the check decides its bounded version and says so: all byte strings to length 2 (3), all strings over 8-symbol alphabets to length 5 (7), every one-deviation neighbour (two on short seeds in thorough) of valid encodings of every message type, and all packet sequences to depth 2-4 (3-6) over a 300-packet alphabet with state deduplication through the hook snapshot. A panic, a worker death (abort, stack overflow, refused allocation above 1 GiB), a single allocation above 4 MiB + 32 bytes per input byte (for CTAPHID: above 16 x the bytes received so far + 2 KiB) or a case exceeding the time limit is a verdict for that input, keyed by decoder + panic site + class.",
          "Thresholds are orders of magnitude above normal behaviour; coset/ciborium/serde_json are exercised as dependencies of the decoders; one direct-call panic (AuthenticationRequest::try_from with an out-of-spec P1) is a known finding.",
          "DESIGN.md §2 C15"),
  "C18": ("model_checking",
